@@ -272,7 +272,13 @@ impl Story {
         if let Some(divert) = divert
             && divert.is_external
         {
-            let name = divert.get_target_path_string().unwrap();
+            // A damaged story document can hold an external call that names a
+            // variable ("var": true) instead of a function.
+            let name = divert.get_target_path_string().ok_or_else(|| {
+                StoryError::InvalidStoryState(format!(
+                    "External function call without a function name: {divert}"
+                ))
+            })?;
 
             if !self.externals.contains_key(&name) {
                 if self.allow_external_function_fallbacks {
